@@ -703,3 +703,39 @@ Proof.
     destruct (Hne eq_refl) as [N1 N2]. destruct e as [sz c| |]; try congruence. subst w2. cbn [w_src w_dst w_dbs w_dbd apply_edit]. rewrite upd_same.
     apply new_file_propagates; cbn [w_src w_dst w_dbs w_dbd]; try assumption. apply upd_same.
 Qed.
+
+(* ---------- paths hidden by an ignore rule ---------- *)
+(* a path that is not hidden anywhere is classified exactly as without ignore rules *)
+Lemma scanned_same st hs hd w p : hs p = false -> hd p = false -> action_of st (scanned hs hd w) p = action_of st w p.
+Proof. intros Hs Hd. unfold action_of, scanned, visible. cbn. rewrite Hs, Hd. reflexivity. Qed.
+
+Lemma sync_files_h_no_rules U st now w : sync_files_h U st now (fun _ => false) (fun _ => false) w = fold_left (sync_step st now w) U w.
+Proof.
+  unfold sync_files_h.
+  assert (G : forall acc, fold_left (sync_step_h st now (fun _ => false) (fun _ => false) w) U acc = fold_left (sync_step st now w) U acc).
+  { induction U as [|p U IH]; intro acc; cbn [fold_left]; [reflexivity|].
+    rewrite IH. assert (E : sync_step_h st now (fun _ => false) (fun _ => false) w acc p = sync_step st now w acc p).
+    { unfold sync_step_h, sync_step, hidden_somewhere. cbn [andb orb]. rewrite scanned_same by reflexivity. reflexivity. }
+    rewrite E. reflexivity. }
+  apply G.
+Qed.
+
+(* A file that an ignore rule hides on one side is left alone on BOTH sides by the whole run: it is neither deleted on the other
+   side, nor overwritten, nor thrown away in a conflict -- whatever the strategy and whatever happens at the other paths
+   (provided p is not one of their conflict names). *)
+Theorem hidden_left_alone U st now hs hd w p :
+  hidden_somewhere hs hd w p = true -> (forall q, In q U -> ~ is_cname q p) ->
+  at_ (sync_files_h U st now hs hd w) p = at_ w p.
+Proof.
+  intros Hh Hc. unfold sync_files_h.
+  assert (G : forall acc, at_ acc p = at_ w p -> at_ (fold_left (sync_step_h st now hs hd w) U acc) p = at_ w p).
+  { induction U as [|q U IH]; intros acc Hacc; cbn [fold_left]; [exact Hacc|].
+    apply IH; [intros q' Hq'; apply Hc; right; exact Hq'|].
+    unfold sync_step_h. destruct (hidden_somewhere hs hd w q) eqn:Eq; [exact Hacc|].
+    destruct (action_of st (scanned hs hd w) q) as [a|]; [|exact Hacc].
+    rewrite exec_frame; [exact Hacc|].
+    intros [E|[_ E]].
+    - subst q. rewrite Hh in Eq. discriminate.
+    - apply (Hc q (or_introl eq_refl)). exact E. }
+  apply G. reflexivity.
+Qed.
